@@ -48,7 +48,9 @@ where
     G::EdgeWeight: Clone + PartialOrd,
     G::NodeId: Eq + Hash,
 {
-    let graph_size = g.node_references().size_hint().0;
+    // The scratch vectors are indexed by `to_index`; an iterator's lower size hint is no bound for it
+    // (it is 0 for StableGraph).
+    let graph_size = g.node_bound();
     let mut auxiliary_const = ArticulationPointTracker::new(graph_size);
 
     for node in g.node_references() {
